@@ -35,6 +35,8 @@ type chgOut struct {
 	Nontriv  bool           `json:"nontriv"`
 	Sample   string         `json:"sample,omitempty"`
 	Notes    []string       `json:"notes,omitempty"`
+	TreeLine string         `json:"tree_line,omitempty"` // model input: the two collected FileInfo trees
+	TreeGot  []string       `json:"tree_got,omitempty"`  // what Changes returned on exactly those trees, in order
 }
 
 func (o *chgOut) count(k string)      { o.Counts[k]++ }
@@ -1480,6 +1482,35 @@ func chgRunDirs(shape, storage string, seed uint64, out *chgOut) error {
 		}
 	}
 
+	// ---- the recursive diff on the collected trees, for the Lean model (`TreeDiff.changes`)
+	if listOK && !oldEmpty {
+		ot, nt, got, err := archive.VerifChangesOnTrees(chgOld, chgNew)
+		if err != nil {
+			out.problem(fmt.Sprintf("collectFileInfoForChanges failed (%s): %q", desc, err.Error()))
+		} else {
+			// the model's sibling lookup is quadratic in the width of a directory: very large trees are left
+			// to the reference-diff oracle above
+			if chgTreeSize(ot)+chgTreeSize(nt) <= 400 {
+				var sb strings.Builder
+				sb.WriteString("changes")
+				chgRenderTree(&sb, ot)
+				chgRenderTree(&sb, nt)
+				out.TreeLine = sb.String()
+			} else {
+				out.count("treediff:too-large-for-model")
+			}
+			set := map[string]bool{}
+			for _, c := range got {
+				out.TreeGot = append(out.TreeGot, chgKindLetter(c.Kind)+hx(c.Path)) // hex: JSON would mangle non-UTF-8 names
+				set[chgKindLetter(c.Kind)+c.Path] = true
+			}
+			if chgSetKey(set) != firstKey {
+				out.problem(fmt.Sprintf("Changes on the collected trees and ChangesDirs disagree as sets (%s)", desc))
+			}
+			out.count("treediff:cases")
+		}
+	}
+
 	// ---- ChangesSize (clause 4)
 	if listOK {
 		var want int64
@@ -2183,4 +2214,23 @@ func chgLayersProbe(out *chgOut) error {
 	out.Canon = "layers/probe"
 	out.Nontriv = true
 	return nil
+}
+
+func chgRenderTree(sb *strings.Builder, n *archive.VerifTreeNode) {
+	b := "0"
+	if n.IsDir {
+		b = "1"
+	}
+	fmt.Fprintf(sb, " N %s %d %s %d %d %d %d %d %d %s %d", hx(n.Name), n.Mode, b, n.Uid, n.Gid, n.Rdev, n.Size, n.MtimeSec, n.MtimeNsec, hx(string(n.Cap)), len(n.Children))
+	for _, c := range n.Children {
+		chgRenderTree(sb, c)
+	}
+}
+
+func chgTreeSize(n *archive.VerifTreeNode) int {
+	k := 1
+	for _, c := range n.Children {
+		k += chgTreeSize(c)
+	}
+	return k
 }
